@@ -1,4 +1,5 @@
 import PeptVerif.Lemmas.CondenseLabel
+import PeptVerif.Lemmas.DecText
 /-!
 # C18 — condensing modifications to mass shifts preserves the peptide
 
@@ -231,6 +232,17 @@ theorem condense_mass_output (E : Env) (c : Annotation) (s : Shifts) (p : ℕ) (
   have : (render c s p).isotope = none := rfl
   simp only [massOf, this]
   exact massFast_render E c s p hn hp
+
+/-- **the text written for a rounded shift denotes that number**: `decText k p` (sign, integer digits, `.`, fraction digits
+with trailing zeros dropped — what `repr(round(x, p))` prints in the positional range) read back as a decimal is `k / 10^p` -/
+theorem written_text_value (k : ℤ) (p : ℕ) : valOfText (decText k p) = (k : ℚ) / ((pow10 p : ℕ) : ℚ) :=
+  valOfText_decText k p
+
+/-- hence the hypothesis of `condense_mass_output` is satisfiable: every environment that reads an int as itself and a float
+text as the decimal it spells is a `NumericMu` environment, at every precision -/
+theorem numericMu_satisfiable (E : Env) (p : ℕ) (hi : ∀ i : ℤ, E.mu (.int i) = i)
+    (hf : ∀ t, E.mu (.flt t) = valOfText t) : NumericMu E p :=
+  numericMu_of_valOfText E p hi hf
 
 /-- the bound of the property text, `k · ½ · 10⁻ᵖ` with `k` the number of shifts written, under the exact extra hypothesis:
 no residue carries a nonzero total below the 10⁻⁶ cut-off -/
